@@ -331,6 +331,11 @@ def run(tier, seed, factor=1):
         c = specrun.rand_config(rnd, "rot")
         c.update(rot="rev", alpha=rnd.choice(["ab", "abc"]), symmetry=False)
         cfgs.append(c)
+    drnd = random.Random(seed * 2750159 + 14)
+    for _ in range(max(16, len(cfgs) // 10)):  # a factory that yields a strategy which does not apply before the one that does
+        c = specrun.rand_config(drnd, None)
+        c.update(factory="decoy", reverse_needed=False, rot=False, sep=None, prefver=None, packver=None)
+        cfgs.append(c)
     for c in cfgs:
         c["iterative"] = c["iterative"] and c["db"] != "RuleDBForest"
     wouts = specrun.pool_map(word_worker, cfgs)
